@@ -315,34 +315,56 @@ impl<S: ShortGroupSignatureScheme> Presentation<S> {
             proof_messages.insert(*id, proof_claims);
         }
 
+        // Claims tied together by equality statements - directly, or through several statements
+        // in whatever order the schema lists them - must all share one blinder: group them first
+        let mut groups: Vec<Vec<(String, usize)>> = Vec::new();
         for statement in &same_proof_messages {
-            let ref_ids = statement.reference_ids();
-            let id1 = &ref_ids[0];
-            for id2 in ref_ids.iter().skip(1) {
-                let ix2 = statement.get_claim_index(id2);
-                let ix1 = statement.get_claim_index(id1);
-                let missing = || {
-                    Error::InvalidPresentationData(format!(
-                        "statement '{}' references a claim that does not exist",
-                        statement.id()
-                    ))
-                };
-                let map1 = proof_messages.get(id1).ok_or_else(missing)?.clone();
-                let map2 = proof_messages.get_mut(id2).ok_or_else(missing)?;
-                if ix1 >= map1.len() || ix2 >= map2.len() {
+            let missing = || {
+                Error::InvalidPresentationData(format!(
+                    "statement '{}' references a claim that does not exist",
+                    statement.id()
+                ))
+            };
+            let mut group: Vec<(String, usize)> = Vec::new();
+            for id in statement.reference_ids() {
+                let ix = statement.get_claim_index(&id);
+                let map = proof_messages.get(&id).ok_or_else(missing)?;
+                if ix >= map.len() {
                     return Err(missing());
                 }
                 // NOTE: other unexpected combinations could be checked too,
                 // e.g., one ProofSpecificBlinding, one ExternalBlinding
-                if matches!(map1[ix1].1, ProofMessage::Revealed(_))
-                    || matches!(map2[ix2].1, ProofMessage::Revealed(_))
-                {
+                if matches!(map[ix].1, ProofMessage::Revealed(_)) {
                     return Err(Error::InvalidClaimData(
                         "revealed claim cannot be used with equality proof",
                     ));
                 }
-                map2[ix2].0 = map1[ix1].0.clone();
-                map2[ix2].1 = map1[ix1].1;
+                if !group.contains(&(id.clone(), ix)) {
+                    group.push((id, ix));
+                }
+            }
+            let (joined, rest): (Vec<_>, Vec<_>) = groups
+                .into_iter()
+                .partition(|g| g.iter().any(|member| group.contains(member)));
+            for member in joined.into_iter().flatten() {
+                if !group.contains(&member) {
+                    group.push(member);
+                }
+            }
+            groups = rest;
+            groups.push(group);
+        }
+        for group in &groups {
+            let first = match group.first() {
+                Some((id1, ix1)) => proof_messages.get(id1).map(|map1| map1[*ix1].clone()),
+                None => None,
+            };
+            if let Some(first) = first {
+                for (id2, ix2) in group.iter().skip(1) {
+                    if let Some(map2) = proof_messages.get_mut(id2) {
+                        map2[*ix2] = first.clone();
+                    }
+                }
             }
         }
 
